@@ -270,10 +270,9 @@ func (d *TSDDecoder) Seek(slot uint16) bool {
 		return false
 	}
 	for d.idx+d.startTime < slot {
+		// skips the slots before target slot, slot without value has no value data need to skip
 		if d.HasValueWithSlot(d.idx + d.startTime) {
 			_ = d.Value()
-		} else {
-			return false
 		}
 	}
 	return d.idx+d.startTime == slot
